@@ -77,6 +77,10 @@ func checkC10(c *Ctx) {
 	r.Rule("R10e", "client-side mapping of error responses (Go and TS)", 8)
 	r.Rule("R10j", "the 400 body for an undecodable request is deliverable: decoder error text (which quotes raw request bytes) reaches FieldViolation.Description only through a UTF-8 sanitiser or %q — an invalid-UTF-8 proto3 string makes the marshalling of the ValidationError fail and the client gets a bare text 400", 1)
 	decodeErrorTextSanitised(c, "R10j")
+	r.Rule("R10l", "violations of the URL binders are deliverable as the documented 400 body: no raw URL value in a description except under %q (shared with C02/R02q)", 2)
+	if ep10, err10 := c.ServerRuntime(); err10 == nil {
+		urlValueNotEchoed(c, ep10, "R10l")
+	}
 	r.Rule("R10k", "every registration starts from a fresh default configuration: getDefaultConfiguration returns a new value, not the address of a package-level variable that an earlier registration's options (error hook, mux) were written into", 1)
 	freshDefaultConfiguration(c, "R10k")
 	r.Rule("R10i", "TS server: validation failures are answered with the documented 400 {violations} whether or not an onError hook is configured (the ValidationError arm precedes the hook)", 1)
